@@ -97,8 +97,26 @@ CHECKS = {
          "The 'consequently' clause (separation / identifiability unchanged) follows from projection equality by Evans 2016 (trusted).",
          TRUST + "; preconditions: latent names f'{prefix}{i}' are not nodes of the graph, no bidirected self-loops; Variable(f'{prefix}{i}') injective in i; trusted mathematics: Evans 2016",
          TECH + " (round trip) + bounded exhaustive check of Evans simplification against an independent latent projection", "DESIGN.md §5 C16"),
+ "C18": ("other", "Proved for all graphs and node pairs (exact theory of relations): merge_pw returns (graph', kept, eliminated) where the factual copy is preferred, every edge not "
+         "touching the eliminated copy survives, the eliminated copy's children and bidirected neighbours are redirected to the kept copy, the eliminated copy is gone, the kept "
+         "copy is present, no node is invented, and every other node survives except parents of the eliminated copy that are not parents of the kept one (that exception is the open "
+         "known finding: the paper's merge removes only the eliminated copy). The construction as a whole (worlds as frozensets of interventions, `node @ world`, the event dictionary) "
+         "needs a Variable algebra the generator does not have; the probability / inconsistency / ancestral-graph clauses are decided by the labelled bounded stand-in: "
+         "make_counterfactual_graph against a functional-SCM oracle (noise shared across worlds) on every ADMG with 2-3 nodes and sampled 3-4 node ADMGs with sampled conjunctions of "
+         "up to 3 counterfactual events (non-reflexive subscripts).",
+         TRUST + "; trusted mathematics: Shpitser & Pearl 2008 Lemmas 24, 25; the bounded part trusts y0vc/fscm.py", TECH + " (merge_pw) + bounded functional-SCM oracle", "DESIGN.md §5 C18"),
 }
 NA = {
+ "C07": "not claimed: on the unchanged tree ID* violates the property, under the reading the property itself fixes, on a broad class that no contract within reach delimits -- 305 of 1,318 "
+        "sampled small events (every ADMG on 2-3 nodes, up to 3 conjuncts) disagree with a functional-SCM oracle: non-event ancestors are left unsummed by line 9, the polarity / event value of "
+        "Markov-pillow subscripts is lost (_to_interventions forces star=False), Zero is returned for possible events with '+' marks. A check would either alarm on the unchanged tree or exclude "
+        "so much that passing means little; a contract-level refinement needs a Variable/world algebra the VC generator does not have. Building blocks are claimed separately (C18 merge_pw and the "
+        "counterfactual graph, C13 operators). The oracle used for this finding is kept under notes/oracles/.",
+ "C08": "not claimed: IDC* ends with ID* (see C07) and Expression.conditional (open known finding of C13: bound variables and subscripts enter the normalising sum), so the unchanged tree "
+        "violates the property on a broad class; the same reasons as C07 apply.",
+ "C09": "not applicable (DESIGN §6): the statement quantifies over multi-domain functional SCM families under stochastic policies whose semantics the implementation itself leaves open; "
+        "no trusted lemma layer for Algorithms 2-4 of Correa et al. could be stated with confidence, and a contract saying 'does what the 2,800-line implementation does' would prove a look-alike. "
+        "Its building blocks are claimed separately (C17 c-factor identification, C14 graph surgery).",
 }
 def main():
     props = [json.loads(l) for l in open(ROOT / "properties.jsonl")]
